@@ -717,7 +717,18 @@ func (r *pwRun) crash(i int, op POp, rnd *core.Rand) *core.Violation {
 		}
 		if op.Torn && k < len(journal) {
 			if e := journal[k]; (e.Kind == simfs.KWrite || e.Kind == simfs.KWriteFile) && len(e.Data) > 1 {
+				// a SIGKILL (the only crash of C05's quantifier) interrupts write(2) between
+				// pages, never inside one: the cut point is rounded down to a page boundary
+				// of the file, and a write that lies within one page is all or nothing
+				// (here: nothing).  A 32-byte slot torn after 21 bytes was a false alarm.
 				torn = 1 + rnd.Intn(len(e.Data)-1)
+				abs := e.Off + int64(torn)
+				abs -= abs % 4096
+				if abs <= e.Off {
+					torn = -1
+				} else {
+					torn = int(abs - e.Off)
+				}
 			}
 		}
 	}
